@@ -1,3 +1,32 @@
 // C11 — Ripser computes the persistence of the Rips filtration, for every input form.  See spec.py for the rule.
 #include "common/vh.h"
+#include "c11_guard.h"
+#include <sys/time.h>
+
+// Runaway protection (a wrong reduction can loop forever while its working column grows): the resident set is capped by
+// ASan itself, and every case has a CPU-time budget far above what any legitimate case needs.  Both end the process;
+// the orchestrator attributes the death to the running case and restarts the shard behind it.
+extern "C" const char* __asan_default_options() { return "hard_rss_limit_mb=4000"; }
+
+namespace c11 {
+static void on_cpu_budget(int) {
+  static const char msg[] = "C11-WATCHDOG: case exceeded its CPU budget (runaway computation in the engine)\n";
+  ssize_t w = ::write(2, msg, sizeof msg - 1); (void)w;
+  ::vh::dump_history_on_fatal();
+  signal(SIGABRT, SIG_DFL);
+  abort();
+}
+CaseGuard::CaseGuard() {
+  static bool installed = false;
+  if (!installed) { signal(SIGVTALRM, on_cpu_budget); installed = true; }
+  struct itimerval it = {};
+  it.it_value.tv_sec = kCpuBudgetSeconds;
+  setitimer(ITIMER_VIRTUAL, &it, nullptr);
+}
+CaseGuard::~CaseGuard() {
+  struct itimerval it = {};
+  setitimer(ITIMER_VIRTUAL, &it, nullptr);
+}
+}  // namespace c11
+
 VH_MAIN()
